@@ -456,33 +456,46 @@ def colStep (numrows : Nat) (dt : DT) (newCommon : Int) (gget : Int → List Row
     if !dt.contains coord then throw (.overflow "precedence value") else
     (gget coord).foldlM (colInner numrows coord) st
 
-/-- `common_count`: per row, the number of cells not yet known to hold something other than the common value -/
+/-- `common_count[rowids] -= 1` for each row-id list of one value -/
+def colDecAll (numrows : Nat) (cc : Array Int) (ls : List Rows) : M (Array Int) := ls.foldlM (colDec numrows) cc
+
+/-- a gathered value `precedence` does not mention: its cells are not common cells either -/
+def colUnlisted (numrows : Nat) (precedence : List Int) (cc : Array Int) (p : Int × List Rows) : M (Array Int) :=
+  if precedence.contains p.1 then pure cc else colDecAll numrows cc p.2
+
+/-- `common_count`: per row, the number of cells not yet known to hold something other than the common value.
+`head` is `precedence[:-1]` with every value kept where it is listed first. -/
 def colCounts (numrows numcols : Nat) (track : Bool) (gathered : List (Int × List Rows)) (gget : Int → List Rows)
-    (precedence : List Int) (default : Int) : M (Array Int) := do
+    (precedence head : List Int) (default : Int) : M (Array Int) := do
   let cc0 : Array Int := Array.replicate numrows (numcols : Int)
-  let cc1 ← if track then (gget default).foldlM (colDec numrows) cc0 else pure cc0
-  if track then
-    gathered.foldlM (fun cc (p : Int × List Rows) =>
-      if precedence.contains p.1 then pure cc else p.2.foldlM (colDec numrows) cc) cc1
-  else pure cc1
+  if track then do
+    let cc1 ← if head.contains default then pure cc0 else colDecAll numrows cc0 (gget default)
+    gathered.foldlM (colUnlisted numrows precedence) cc1
+  else pure cc0
+
+/-- value ↦ its gathered row-id lists (`gathered.get(coord, [])`) -/
+def ggetOf (gathered : List (Int × List Rows)) (c : Int) : List Rows :=
+  ((gathered.find? (fun p => p.1 == c)).map (·.2)).getD []
 
 /-- the per-row output of `collapsed` -/
 def collapseCore (numrows numcols : Nat) (dt : DT) (newCommon : Int) (gathered : List (Int × List Rows))
-    (precedence : List Int) (default : Int) : M (Array Int) := do
-  let gget (c : Int) : List Rows := ((gathered.find? (fun p => p.1 == c)).map (·.2)).getD []
-  let track := default != newCommon
-  let cc ← colCounts numrows numcols track gathered gget precedence default
-  let st ← (precedence.dropLast.reverse).foldlM (colStep numrows dt newCommon gget)
+    (precedence head : List Int) (default : Int) : M (Array Int) := do
+  let track := default != newCommon || head.contains newCommon
+  let cc ← colCounts numrows numcols track gathered (ggetOf gathered) precedence head default
+  let st ← (head.reverse).foldlM (colStep numrows dt newCommon (ggetOf gathered))
     (Array.replicate numrows default, cc, !track)
   pure st.1
+
+/-- the value mapping of `collapsed` / `reindexed`-style lookups: `mapping.get(v, v)` -/
+def mapGet (mapping : Option (List (Int × Int))) (v : Int) : Int :=
+  match mapping with
+  | none => v
+  | some m => (lookup m v).getD v
 
 /-- `collapsed(precedence, mapping)` -/
 def collapsed (i : IIndex) (precedence : List Int) (mapping : Option (List (Int × Int))) : M IIndex :=
   if i.shape.length < 2 then throw (.typeError "Cannot collapse: no column axis") else
-  let mp (v : Int) : Int := match mapping with
-    | none => v
-    | some m => (lookup m v).getD v
-  let newCommon := mp i.common
+  let newCommon := mapGet mapping i.common
   let numrows := i.shape.getD 0 0
   let numcols := i.shape.getD 1 0
   if numrows = 0 then pure { entries := [], common := newCommon, shape := [0] } else
@@ -490,10 +503,12 @@ def collapsed (i : IIndex) (precedence : List Int) (mapping : Option (List (Int 
   | none => throw (.valueError "max() of empty precedence")
   | some default =>
   -- gathered: (possibly mapped) coordinate -> list of row-id lists, in entry order
-  let gathered : List (Int × List Rows) := i.entries.foldl (colGather mp newCommon) []
+  let gathered : List (Int × List Rows) := i.entries.foldl (colGather (mapGet mapping) newCommon) []
   let dt := fitDtype (listMax precedence (precedence.headD 0)) (min (listMin precedence (precedence.headD 0)) 0)
   if !dt.contains default then throw (.overflow "precedence value") else do
-  let out ← collapseCore numrows numcols dt newCommon gathered precedence default
+  -- a value listed more than once counts where it is listed first
+  let head := precedence.dropLast.eraseDups
+  let out ← collapseCore numrows numcols dt newCommon gathered precedence head default
   let r ← fromArray { shape := [numrows], data := out.toList } {}
   pure r.1
 
